@@ -76,7 +76,7 @@ class Stats:
 STATS = Stats()
 
 
-def _index_terms(exprs, limit=400):
+def _index_terms(exprs, limit=400, want=("Int",)):
     """Collect Int-sorted terms that occur as arguments of uninterpreted
     functions or as array indices: the ground-instantiation pool."""
     seen = set()
@@ -84,7 +84,7 @@ def _index_terms(exprs, limit=400):
     pool_ids = set()
 
     def add(t):
-        if t.sort() != INT:
+        if str(t.sort()) not in want:
             return
         k = t.get_id()
         if k in pool_ids:
@@ -274,7 +274,12 @@ def prove(hyps, qfacts, goal, extra_pool=(), timeout_ms=None, want_model=True,
     base = list(hyps) + [neg]
     ground = []
     if qfacts:
-        pool = _index_terms(base) + [t for t in extra_pool]
+        want = {"Int"}
+        for q in qfacts:
+            for srt in q.sorts:
+                want.add(str(srt))
+        want = tuple(sorted(want))
+        pool = _index_terms(base, want=want) + [t for t in extra_pool]
         by_sort = {}
         ids = set()
         for t in pool:
@@ -284,7 +289,7 @@ def prove(hyps, qfacts, goal, extra_pool=(), timeout_ms=None, want_model=True,
             by_sort.setdefault(str(t.sort()), []).append(t)
         ground = _instantiate(qfacts, by_sort)
         # one closure round: instances may mention new index terms
-        pool2 = _index_terms(ground)
+        pool2 = _index_terms(ground, want=want)
         grew = False
         for t in pool2:
             if t.get_id() not in ids and len(ids) < 120:
